@@ -72,6 +72,11 @@ HARNESSES = [
               "C4 D4 23 67) and Reader::new reads every field back (Reader::len = count written, codec = codec written)",
       functions=["Metadata::write_into", "Metadata::read_from", "Reader::new", "Reader::len", "Reader::compression_type"],
       bounds="all u64 offsets/counts, all 6 codec ids, all u8 levels"),
+    H("metadata::verif_h::c11_trailer_short_reads", ["C11", "C10"], kind="H", layer="L2", timeout=1200,
+      decides="Reader::new over a source that serves every read in symbolic pieces of 1..=8 bytes and reports up to 2 interruptions returns exactly "
+              "the fields of the trailer (V1 and V2), i.e. the same as over a whole-buffer source",
+      functions=["Reader::new", "Metadata::read_from", "byteorder read_u64/u8/u32", "std Read::read_exact"],
+      stubs=["ShortSrc: short-reading / interrupting Read+Seek (harness kit)"], bounds="file length 21..=24, any valid trailer; unwind 10"),
     H("metadata::verif_h::c16_open_io", ["C16"], kind="K", layer="L2", timeout=900,
       decides="opening performs 2 seeks and reads 22 (V2) / 21 (V1) bytes, all inside the last 22 bytes; into_cursor reads nothing",
       functions=["Reader::new", "Metadata::read_from", "Reader::into_cursor", "ReaderCursor::new"],
@@ -104,6 +109,15 @@ HARNESSES.append(H("block::verif_h::c17_block_borrows", ["C02"], kind="H", layer
                    decides="slices returned by the >=-seek (incl. the 'static transmute) lie inside the live block buffer and are readable",
                    functions=_BLOCK_FUNCS_CUR + [_OPFN["ge"]], bounds=_BLOCK_BOUNDS % 2))
 
+for _L in (127, 128, 129):
+    HARNESSES.append(H("block::verif_h::c14_frame_%d" % _L, ["C14"], kind="D", layer="L2", timeout=1200,
+                       decides="one entry with a %d-byte value (symbolic contents) written by the real BlockWriter and read back by the real Block::entry_at: key, "
+                               "value length, every value byte (one symbolic position) and the next offset are exact; the length is framed in %d byte(s)" % (
+                                   _L, 1 if _L < 128 else 2),
+                       functions=["BlockWriter::insert/finish", "varint_encode32", "Block::entry_at", "varint_decode32", "varint_length_packed"],
+                       bounds="value length %d (concrete), key length 1, contents symbolic" % _L,
+                       outside="entries at the 2^14 / 2^21 / 2^28 boundaries are not materialised (codec kernel only)"))
+
 # fixed-length instances (entry count and every key/value length concrete; contents, pre-position and probe symbolic): fast,
 # so many length patterns and all three intervals run in the quick tier
 LEN_PATTERNS = [  # (n, key lengths, value lengths)
@@ -127,7 +141,8 @@ for _pi, (_n, _kl, _vl) in enumerate(LEN_PATTERNS):
         _nm = "c01_block_newf_i%d_p%d" % (_iv, _pi)
         GEN_BLOCK.append("block_new_fixed!(%s, %d, %d, %s, %s);" % (_nm, _iv, _n, _kl, _vl))
         HARNESSES.append(H("block::verif_h::" + _nm, ["C01", "C09", "C14", "C02", "C03"],
-                           tier={"C01": "quick" if _q else "thorough", "C09": "quick" if _q else "thorough", "*": "thorough"},
+                           tier={"C01": "quick" if (_q or _pi == 1 and _iv == 2) else "thorough", "C09": "quick" if _q else "thorough",
+                                 "C14": "quick" if (_pi in (1, 5) and _iv == 2) else "thorough", "*": "thorough"},
                            kind="D", layer="L2", timeout=900,
                            decides="ac_block_new ⊑ Block::new: loading `len ‖ block` (independent encoder) through &[u8] with the real decompress(None), "
                                    "std read_to_end and footer parsing recovers payload size, offset table (every interval-th entry, first 0) and "
@@ -425,6 +440,23 @@ def GF(layout, ops, max_io, tier="quick", mem="medium", timeout=2400):
                        bounds="fault index symbolic; keys symbolic 1 byte; one symbolic probe"))
 
 
+def GSF(layout, forward, max_io, tier="quick", mem="medium", timeout=2400):
+    name = "c12_step_faults_%s_%s" % ("next" if forward else "prev", layout)
+    src = "glue_harness!(%s, 10, {\n    let (faulted, io) = step_move_faults(%s, %s, %d);\n    kani::cover!(faulted && io >= 3);\n    kani::cover!(faulted && io == 1);\n    kani::cover!(!faulted && io >= 2);\n});\n" % (
+        name, LAYOUTS[layout][0], "true" if forward else "false", max_io)
+    GEN_CURSOR.append((name, src))
+    HARNESSES.append(H("reader::reader_cursor::verif_h::" + name, ["C12"], tier=tier, mem=mem, timeout=timeout, kind="S", layer="L3", replay="none",
+                       decides="one %s from EVERY RI-strong cursor state over %s while the k-th seek/load of the source fails (k in 1..=%d, kind symbolic): Err(Io(kind)) "
+                               "iff the fault fired during the call, otherwise the adjacent entry; errors raised while reloading a parent index level are not "
+                               "swallowed" % ("next" if forward else "prev", LAYOUTS[layout][3], max_io),
+                       functions=GLUE_FUNCS + ["From<io::Error> for Error"], stubs=GLUE_STUBS + ["ModelFile fault injection"],
+                       bounds="entry index, fault index and kind symbolic; keys symbolic 1 byte"))
+
+
+GSF("l3", True, 6)
+GSF("l3", False, 6)
+GSF("l2a", True, 4, tier="thorough")
+GSF("l2a", False, 4, tier="thorough")
 GF("l0a", ["first"], 5)
 GF("l0a", ["ge:sym"], 5)
 GF("l0a", ["last"], 5)
@@ -691,6 +723,26 @@ fn %s() {
                                "finish is encoded like a fresh one (reset)",
                        functions=BW_FUNCS,
                        bounds="first block %d entries, second %d; key lengths %s, value lengths %s (concrete), contents symbolic; interval %d" % (_n, _n2, _kl, _vl, _iv)))
+for _i, (_n, _kl, _vl, _iv, _n2) in enumerate(BW_PATTERNS):
+    if _i in (0, 1):
+        continue
+    _name = "c09_d047_block_p%d_i%d" % (_i, _iv)
+    GEN_BW.append("""#[kani::proof]
+#[kani::unwind(10)]
+fn %s() {
+    d047_block_check(%d, %s, %s, %d);
+}
+""" % (_name, _n, _kl, _vl, _iv))
+    HARNESSES.append(H("block_writer::verif_h::" + _name, ["C09"], tier="quick" if _i in (4, 6) else "thorough", kind="D", layer="L2", timeout=1200,
+                       decides="differential against the frozen grenad 0.4.7 sources (copied from the cargo registry on every run): the current BlockWriter and "
+                               "0.4.7's BlockWriter emit identical block bytes (and size estimates) for the same entries",
+                       functions=BW_FUNCS + ["grenad 0.4.7 BlockWriter::insert/finish (frozen)"],
+                       bounds="%d entries, key lengths %s, value lengths %s (concrete), contents symbolic, interval %d" % (_n, _kl[:_n], _vl[:_n], _iv)))
+HARNESSES.append(H("block_writer::verif_h::c09_d047_trailer", ["C09", "C10"], kind="D", layer="L2", timeout=1200,
+                   decides="differential against frozen grenad 0.4.7: Metadata::write_into emits identical trailers (V2 and V1, all field values) and each "
+                           "version's read_from parses the other's trailer to the same fields",
+                   functions=["Metadata::write_into", "Metadata::read_from", "grenad 0.4.7 Metadata::write_into/read_from (frozen)"],
+                   bounds="all u64 offsets/counts, all u8 levels, codec ids 0..=5, both file versions"))
 for _nm, _d in (("c18_block_order_panics", "second insert with a key <= the first PANICS (should_panic; key lengths symbolic 0..=2)"),
                 ("c18_block_order_accepts", "second insert with a strictly greater key is accepted"),
                 ("c18_block_order_after_reset", "after finish / reset any key is accepted again")):
@@ -968,7 +1020,7 @@ PROPS = {
     "C14": dict(claimed=True, design="§5 C14",
                 text="All 2^32 length values decided in one solver query against an independent LEB128 (length, shortest form, exact "
                      "bytes, decode of encoding‖junk returns the value and consumes exactly the encoding); framing use on write/read "
-                     "decided for symbolic key/value lengths across the 2^7 boundary.",
+                     "decided for entries with value lengths 127 / 128 / 129 (real BlockWriter -> real entry_at) and for zero-length keys and values.",
                 note="Entries materialised at 2^14/2^21/2^28 are outside (arrays of 16 KiB..256 MiB are not encodable); there the claim is "
                      "the codec kernel plus the framing harness showing framing uses only the codec's value and consumed length."),
     "C10": dict(claimed=True, design="§5 C10",
@@ -987,8 +1039,8 @@ PROPS = {
                 text="Byte-level conformance to an independent encoder written from the format text: block bytes (framing, offset table, count) from the real "
                      "BlockWriter; block sequence, length prefixes, index entries (last key -> u64 BE offset) and stream positions from the real Writer logic; "
                      "the 22 trailer bytes from the real Metadata::write_into; the independent decoder side is the real Block::new over reference bytes.",
-                note="grenad 0.4.7 interoperability is claimed only through format identity with the reference encoder (its block/trailer modules are not "
-                     "executed in this revision); codecs outside."),
+                note="grenad 0.4.7: block-writer and trailer differentials against the frozen 0.4.7 sources (its block.rs/varint.rs/metadata.rs are byte-identical "
+                     "to the pinned tree, so the reader side is covered by the reference-bytes harnesses); 0.4.7's file-level Writer/Reader glue is not executed; codecs outside."),
     "C15": dict(claimed=True, design="§5 C15",
                 text="Clamp decided for every usize at the real constant; size estimate = exact finished size (real BlockWriter); cut rule decided on the real "
                      "Writer logic: the emitted layout equals the reference layout, in which every data block and every index block below level 1 reaches "
